@@ -352,19 +352,18 @@ def applyAgg (name : String) (vs : List Value) : Option Value :=
     | v :: rest => some (rest.foldl (fun m x => if cmp x m > 0 then x else m) v)
   else none
 
+/-- one aggregate over its column of inputs: NULL inputs are skipped; no input left: NULL -/
+def aggOne (a : String) (col : List Value) : Option Value :=
+  let nonNull := col.filter (fun v => !isNull v)
+  if nonNull.isEmpty then some Value.null else applyAgg a nonNull
+
+/-- the aggregates of one group: aggregate `i` sees the `i`-th input of every record of the group -/
 def aggCols : List String → List (List Value) → Option (List Value)
-  | [], [] => some []
-  | a :: as, col :: cols =>
-    let nonNull := col.filter (fun v => !isNull v)
-    let out := if nonNull.isEmpty then some Value.null else applyAgg a nonNull
-    match out, aggCols as cols with
+  | [], _ => some []
+  | a :: as, inputs =>
+    match aggOne a (inputs.filterMap List.head?), aggCols as (inputs.map List.tail) with
     | some v, some vs => some (v :: vs)
     | _, _ => none
-  | _, _ => none
-
-/-- transpose the per-record aggregate inputs of one group into columns (n = number of aggregates) -/
-def columns (n : Nat) (inputs : List (List Value)) : List (List Value) :=
-  (List.range n).map fun i => inputs.filterMap fun row => row[i]?
 
 /-- add one record's (key, aggregate inputs) to the groups (`Compare = 0` pointwise identifies a group) -/
 def addToGroups (k : List Value) (inp : List Value) :
@@ -387,7 +386,7 @@ def keyInputs (ctx : Ctx) (key aggExprs : List PExpr) : List Row → Option (Lis
 def groupOut (fields aggs : List String) : List (List Value × List (List Value)) → Option (List Row)
   | [] => some []
   | (k, inputs) :: rest =>
-    match aggCols aggs (columns aggs.length inputs), groupOut fields aggs rest with
+    match aggCols aggs inputs, groupOut fields aggs rest with
     | some avs, some out =>
       match zipNames fields (k ++ avs) with
       | some row => some (row :: out)
